@@ -5,7 +5,9 @@ package main
 // known-path-regexp mappings, the two privacy flags) are only executed; queries (Safety,
 // SafetyFiles, and records emitted from call sites whose compile-time file name is chosen with
 // //line directives) are repeated `reps` times because Go randomises the iteration order of the
-// mapping table, and the DISTINCT results are recorded.  Nothing is judged here: the log is
+// mapping table, and the DISTINCT results are recorded.  A "Chdir" event really changes the working
+// directory of this process (os.Chdir) and records what os.Getwd() says afterwards; every behaviour
+// starts in the directory the process was started in.  Nothing is judged here: the log is
 // validated by TLC against spec/PathsTrace.tla.
 //
 // NOTE: keep siteReal above the first //line directive of this file - everything below a //line
@@ -37,6 +39,7 @@ type pathsEvent struct {
 	Op   string   `json:"op"`
 	K    []int    `json:"k,omitempty"`
 	V    []int    `json:"v,omitempty"`
+	D    []int    `json:"d,omitempty"` // Chdir: the directory to change to
 	R    *pathsRx `json:"r,omitempty"`
 	F    string   `json:"f,omitempty"`
 	On   bool     `json:"on,omitempty"`
@@ -134,7 +137,11 @@ func pathsMain(args []string) int {
 			r.reset()
 			op = "Reset"
 		}
-		out.emit(map[string]any{"op": op, "home": pathsS2B(r.home), "cwd": pathsS2B(r.cwd),
+		now, err := os.Getwd()
+		if err != nil {
+			now = "?" + err.Error()
+		}
+		out.emit(map[string]any{"op": op, "home": pathsS2B(r.home), "cwd": pathsS2B(now),
 			"fp": slog.IsAnyBitsSet(slog.Lprivacypath), "fr": slog.IsAnyBitsSet(slog.Lprivacypathregexp)})
 		for _, ev := range beh {
 			out.emit(r.exec(ev))
@@ -145,6 +152,9 @@ func pathsMain(args []string) int {
 
 // reset brings the tables and flags back to their contents at process start, through the public API.
 func (r *pathsRun) reset() {
+	if err := os.Chdir(r.cwd); err != nil {
+		panic("cannot return to the start directory: " + err.Error())
+	}
 	slog.SetFlags(r.initFlags)
 	slog.ResetKnownPathMapping()
 	slog.AddKnownPathMapping(r.home, "~")
@@ -215,6 +225,16 @@ func (r *pathsRun) exec(ev pathsEvent) (rec map[string]any) {
 		slog.RemoveKnownPathMapping(pathsB2S(ev.K))
 	case "ResetMap":
 		slog.ResetKnownPathMapping()
+	case "Chdir":
+		rec["d"] = pathsNZ(ev.D)
+		if err := os.Chdir(pathsB2S(ev.D)); err != nil {
+			rec["harness_error"] = "chdir: " + err.Error()
+		}
+		wd, err := os.Getwd()
+		if err != nil {
+			rec["harness_error"] = "getwd: " + err.Error()
+		}
+		rec["wd"] = pathsS2B(wd)
 	case "AddRx":
 		rec["r"] = pathsRxRec(ev.R)
 		slog.AddKnownPathRegexpMapping(ev.R.expr(), pathsB2S(ev.R.Repl))
